@@ -58,6 +58,7 @@ type synthState struct {
 	synOrigin   map[ssa.Value]ssa.Value // synthetic value -> the helper value it stands for
 	synSite     map[ssa.Value]*ssa.Call // synthetic value -> the call site it was translated at
 	usedAsValue map[*ssa.Function]bool
+	phiBusy     map[*ssa.Phi]bool
 }
 
 func (w *World) ss() *synthState {
@@ -121,6 +122,18 @@ func (w *World) singleSiteCI(fn *ssa.Function) ssa.CallInstruction {
 		return s.single[fn]
 	}
 	s.singleDone[fn] = true
+	if fn != nil && w.IsMod[fn] && fn.Parent() != nil && len(fn.Blocks) > 0 {
+		// a function literal that is invoked on the spot: func(){...}()
+		if mcs := w.Closures[fn]; len(mcs) == 1 {
+			if refs := mcs[0].Referrers(); refs != nil && len(*refs) == 1 {
+				if ci, ok := (*refs)[0].(ssa.CallInstruction); ok && ci.Common().Value == ssa.Value(mcs[0]) {
+					s.single[fn] = ci
+					return ci
+				}
+			}
+		}
+		return nil
+	}
 	if fn == nil || !w.IsMod[fn] || fn.Parent() != nil || fn.Synthetic != "" || len(fn.Blocks) == 0 {
 		return nil
 	}
@@ -244,6 +257,12 @@ func (w *World) helpersOf(fn *ssa.Function) []*ssa.Function {
 			if c, ok := in.(ssa.CallInstruction); ok {
 				if h := c.Common().StaticCallee(); h != nil && w.singleSiteCI(h) == c {
 					visit(h)
+				}
+			}
+			// a method value x.m made here and nowhere else: m's body belongs here
+			if mc, ok := in.(*ssa.MakeClosure); ok {
+				if body := w.closureBody(mc); body != nil && ssa.Value(body) != mc.Fn && w.singleSiteCI(body) != nil {
+					visit(body)
 				}
 			}
 		})
@@ -558,6 +577,19 @@ func (w *World) importFacts(facts []Fact) []Fact {
 		if v == nil {
 			continue
 		}
+		if phi, isPhi := w.resolveLoad(v).(*ssa.Phi); isPhi {
+			// a merged value with a known outcome: what holds on every edge that can deliver
+			// that outcome (err = phi(Get's error, CheckSize's error); err == nil rules out the
+			// edge taken under Get's error != nil, so CheckSize(...) == nil holds)
+			for _, nf := range w.phiOutcomeFacts(phi, outcome) {
+				k := w.factStr(nf)
+				if !seen[k] {
+					seen[k] = true
+					facts = append(facts, nf)
+				}
+			}
+			continue
+		}
 		c, ci := callOf(w.resolveLoad(v))
 		if c == nil {
 			continue
@@ -857,4 +889,169 @@ func (w *World) eachCallThroughX(fn *ssa.Function, depth int, exportedToo bool, 
 		})
 	}
 	visit(fn, func(v ssa.Value) ssa.Value { return v }, depth, nil)
+}
+
+// leafCtx: one non-phi value a (possibly phi) value can take, with the must-facts that hold
+// where it is selected: at the use itself for a plain value, at the end of the predecessor
+// block (plus the edge condition) for a phi operand.
+type leafCtx struct {
+	val   ssa.Value
+	facts []Fact
+	at    string
+}
+
+// guardedLeaves enumerates the feasible non-phi leaves of v as used at instruction `at`.
+// Facts are about SSA values of the iteration in which the operand was selected, so a
+// "found" variable carried around a loop keeps the facts of the iteration that set it.
+func (w *World) guardedLeaves(v ssa.Value, at ssa.Instruction) []leafCtx {
+	var out []leafCtx
+	seen := map[*ssa.Phi]bool{}
+	var walk func(v ssa.Value, facts []Fact, where string)
+	walk = func(v ssa.Value, facts []Fact, where string) {
+		v = w.resolveLoad(v)
+		phi, ok := v.(*ssa.Phi)
+		if !ok {
+			out = append(out, leafCtx{v, facts, where})
+			return
+		}
+		if seen[phi] {
+			return
+		}
+		seen[phi] = true
+		for i, e := range phi.Edges {
+			pred := phi.Block().Preds[i]
+			if deadEdge(pred, phi.Block()) {
+				continue
+			}
+			if e == ssa.Value(phi) {
+				continue
+			}
+			var fs []Fact
+			if len(pred.Instrs) > 0 {
+				fs = append(fs, w.factsAt(pred.Instrs[0])...)
+			}
+			fs = append(fs, edgeFacts(pred, phi.Block())...)
+			fs = w.importFacts(fs)
+			walk(e, fs, w.instrPos(pred.Instrs[len(pred.Instrs)-1]))
+		}
+	}
+	walk(v, w.factsAt(at), w.instrPos(at))
+	return out
+}
+
+// bodyRoot: the named function whose body fn belongs to: function literals belong to the
+// function that declares them, single-call-site helpers to their caller.
+func (w *World) bodyRoot(fn *ssa.Function) *ssa.Function {
+	for n := 0; n < 16 && fn != nil; n++ {
+		if fn.Parent() != nil {
+			fn = fn.Parent()
+			continue
+		}
+		site := w.singleSiteCI(fn)
+		if site == nil {
+			return fn
+		}
+		fn = site.Parent()
+	}
+	return fn
+}
+
+// phiOutcomeFacts: facts implied by "phi has the given outcome" (nil / nonnil / true /
+// false): the intersection, over the edges whose operand can have that outcome, of the
+// must-facts at the end of the edge's predecessor, the edge condition, and the operand
+// having the outcome. An edge is ruled out when its own facts say the operand has the
+// opposite outcome, or when the operand is a constant of the opposite outcome.
+func (w *World) phiOutcomeFacts(phi *ssa.Phi, outcome string) []Fact {
+	st := w.ss()
+	if st.phiBusy == nil {
+		st.phiBusy = map[*ssa.Phi]bool{}
+	}
+	if st.phiBusy[phi] {
+		return nil
+	}
+	st.phiBusy[phi] = true
+	defer delete(st.phiBusy, phi)
+	outcomeFact := func(v ssa.Value, oc string) Fact {
+		switch oc {
+		case "nil":
+			return Fact{Atom{"==", v, ssa.NewConst(nil, v.Type())}, true}
+		case "nonnil":
+			return Fact{Atom{"==", v, ssa.NewConst(nil, v.Type())}, false}
+		case "true":
+			return Fact{Atom{"true", v, nil}, true}
+		default:
+			return Fact{Atom{"true", v, nil}, false}
+		}
+	}
+	opposite := map[string]string{"nil": "nonnil", "nonnil": "nil", "true": "false", "false": "true"}
+	var acc map[string]Fact
+	first := true
+	for i, e := range phi.Edges {
+		pred := phi.Block().Preds[i]
+		if deadEdge(pred, phi.Block()) || e == ssa.Value(phi) {
+			continue
+		}
+		if phi.Block().Dominates(pred) {
+			// a loop-carried operand: facts of an earlier iteration say nothing about the
+			// values as they are when the phi is used
+			return nil
+		}
+		ev := w.resolveLoad(e)
+		// constants decide
+		if cst, ok := stripIface(ev).(*ssa.Const); ok {
+			switch outcome {
+			case "nil", "nonnil":
+				if (cst.Value == nil) != (outcome == "nil") {
+					continue
+				}
+			case "true", "false":
+				if cst.Value != nil && isBoolType(cst.Type()) && (cst.Value.String() == "true") != (outcome == "true") {
+					continue
+				}
+			}
+		}
+		var fs []Fact
+		if len(pred.Instrs) > 0 {
+			fs = append(fs, w.factsAt(pred.Instrs[0])...)
+		}
+		fs = append(fs, edgeFacts(pred, phi.Block())...)
+		// ruled out by its own edge?
+		contra := w.factStr(outcomeFact(ev, opposite[outcome]))
+		infeasible := false
+		for _, f := range fs {
+			if w.factStr(f) == contra {
+				infeasible = true
+			}
+		}
+		if infeasible {
+			continue
+		}
+		if _, isC := stripIface(ev).(*ssa.Const); !isC {
+			fs = append(fs, outcomeFact(ev, outcome))
+		}
+		fs = w.importFacts(fs)
+		set := map[string]Fact{}
+		for _, f := range fs {
+			set[w.factStr(f)] = f
+		}
+		if first {
+			acc, first = set, false
+		} else {
+			for k := range acc {
+				if _, ok := set[k]; !ok {
+					delete(acc, k)
+				}
+			}
+		}
+	}
+	var keys []string
+	for k := range acc {
+		keys = append(keys, k)
+	}
+	sort.Strings(keys)
+	var out []Fact
+	for _, k := range keys {
+		out = append(out, acc[k])
+	}
+	return out
 }
